@@ -6,9 +6,10 @@ sys.path.insert(0, V)
 ids = [json.loads(l)['id'] for l in open(os.path.join(V, 'properties.jsonl'))]
 na = json.load(open(os.path.join(V, 'props', 'not_applicable.json')))
 checks, nas = [], []
+claimed = json.load(open(os.path.join(V, 'props', 'claimed.json')))   # the lead's list of finished, reviewed checks
 for i in ids:
     mod = None
-    if os.path.exists(os.path.join(V, 'props', i + '.py')):
+    if i in claimed and os.path.exists(os.path.join(V, 'props', i + '.py')):
         mod = importlib.import_module('props.' + i)
     if mod is not None and getattr(mod, 'CLAIMED', False):
         m = mod.MANIFEST
